@@ -44,6 +44,19 @@ CORPUS_INTEL = [
     'jz .LC0', 'call foo', 'mov eax, .LC0-.LC1',
 ]
 
+# constant arithmetic inside operands (the term algebra dict_add / dict_sub / dict_mul of the Intel grammar); GNU as
+# evaluates the same expressions and is the reference denotation
+CONST_ARITH = []
+for _ad in ('ebp+8-4', '8+ebp-4', 'ebp-8-4', 'ebp-8+4', 'ebx+esi*2+16-8', 'ebp+4+4', 'ebp+16-8-4', '16-8+ebp', 'ebp-4+16', 'eax*4+32-16',
+            'ebp+0x10-0x8', '100-50', '4+4', 'esp+8-8', 'ebx+esi*2-4-4', 'ebp+2*4', 'ebp-2*4', 'ebp+8-2*2'):
+    CONST_ARITH.append('mov eax, DWORD PTR [%s]' % _ad)
+    CONST_ARITH.append('lea ecx, [%s]' % _ad)
+for _im in ('16-8', '4+4', '16-8-4', '8-16', '5-2', '3-5', '2*4', '2*4-1', '0x10-0x8', '1+2+3', '10-1-2-3', '-4+8', '-4-4'):
+    CONST_ARITH.append('add eax, %s' % _im)
+    CONST_ARITH.append('mov cl, %s' % _im)
+    CONST_ARITH.append('push %s' % _im)
+CORPUS_INTEL = CORPUS_INTEL + CONST_ARITH
+
 CORPUS_ATT = [
     'nop', 'ret', 'ret $4', 'leave', 'cltd', 'cwtl', 'cbtw', 'cwtd', 'clc', 'std', 'pushal', 'popal', 'pushfl', 'popfl', 'int $3', 'ud2', 'pause',
     'movl %ebx, %eax', 'movb $1, %al', 'movw $0, %ax', 'movl $0x12345678, %eax', 'movl $-1, %eax', 'movl 12(%ebp), %eax', 'movl %eax, 8(%esp)', 'movb $-2, -9(%ebp)',
